@@ -300,7 +300,7 @@ def extension_to_xml(obj: model.Extension, tag: str = NS_AAS+"extension") -> etr
     if obj.value_type:
         et_extension.append(_generate_element(NS_AAS + "valueType",
                                               text=model.datatypes.XSD_TYPE_NAMES[obj.value_type]))
-    if obj.value:
+    if obj.value is not None:
         et_extension.append(_value_to_xml(obj.value, obj.value_type))  # type: ignore # (value_type could be None)
     if len(obj.refers_to) > 0:
         refers_to = _generate_element(NS_AAS+"refersTo")
